@@ -96,7 +96,7 @@ def setPc (s : St) (j : Nat) (p : Pc) : Nat → Pc := fun k => if k = j then p e
 /-- `if job_id not in running_jobs: break` followed by `self._scheduled_jobs.pop(job_id)` -/
 def afterPoll (s : St) (j : Nat) (running : List Nat) : St :=
   if j ∈ running then { s with pc := setPc s j .poll }
-  else if j ∈ s.scheduled then { s with scheduled := s.scheduled.erase j, pc := setPc s j .popped }
+  else if j ∈ s.scheduled then { s with scheduled := s.scheduled.filter (· ≠ j), pc := setPc s j .popped }
   else { s with pc := setPc s j .failed }
 
 /-- what `scontrol show job j` yields for a field of the final record -/
@@ -137,7 +137,7 @@ def step (cfg : Cfg) (s : St) : Act → Option St
       match s.pc j with
       | .gotOut o => some { s with pc := setPc s j (.done o (scontrol s j Prod.snd)) }
       | _ => none
-  | .leave j => if j ∈ s.queue then some { s with queue := s.queue.erase j } else none
+  | .leave j => if j ∈ s.queue then some { s with queue := s.queue.filter (· ≠ j) } else none
   | .expire => some { s with cache := none }
   | .undeployStart =>
       if s.upc = .idle then
